@@ -1,6 +1,7 @@
 package core
 
 import (
+	"context"
 	"encoding/binary"
 	"encoding/json"
 	"fmt"
@@ -809,7 +810,10 @@ func rejudge(work, build, id, tmp string, v *Violation) bool {
 	f := filepath.Join(tmp, "rejudge.json")
 	b, _ := json.Marshal(map[string]any{"property": id, "phase": v.Phase, "point": v.Point})
 	os.WriteFile(f, b, 0o644)
-	cmd := exec.Command(filepath.Join(work, "bin", "jmc-"+build), "judge", f)
+	// a judge that does not come back within five minutes is killed (and counts as not reproduced)
+	ctx, cancel := context.WithTimeout(context.Background(), 5*time.Minute)
+	defer cancel()
+	cmd := exec.CommandContext(ctx, filepath.Join(work, "bin", "jmc-"+build), "judge", f)
 	cmd.Env = append(os.Environ(), "GOMAXPROCS=2")
 	out, _ := cmd.CombinedOutput()
 	return strings.Contains(string(out), "JUDGE: violation")
